@@ -167,9 +167,12 @@ def judge_groups(ctx, groups, clause_filter, site_of=None, tags_of=None, trace_m
             if v['path'] == 'exc:Reset' and kind != 'range':
                 continue                      # Reset leaves most state UNKNOWN: only the range canary applies
             if kind == 'priv':
-                ctx.canary('confine' in v['v'] or 'range' in v['v'] or 'hosterror' in v['v'])
-            elif v['path'].startswith('exact') or v['path'].startswith('exc') or kind == 'range':
+                ctx.canary('confine' in v['v'] or 'range' in v['v'] or 'hosterror' in v['v'] or
+                           (v['path'].startswith(('memapi', 'exc')) and bool(v['v'])))
+            elif v['path'].startswith(('exact', 'exc', 'memapi')) or kind == 'range':
                 ctx.canary(bool(v['v']))
+                if not v['v']:
+                    log('  canary not rejected: kind=%s path=%s act=%s' % (kind, v['path'], c['act']))
         ctx.events += len(g.events)
     return out
 
